@@ -43,7 +43,7 @@ def run(pid, tier, seed, procs=None):
         n_op = N
         if kind == 'key' and N > cfg['N_key']:
             n_op = cfg['N_key']
-        if tier == 'quick' and pid not in HEAVY and kind in ('map', 'set') and op in ('delete', 'delete_by_index'):
+        if tier == 'quick' and (pid not in HEAVY or pid == 'C02') and kind in ('map', 'set') and op in ('delete', 'delete_by_index'):
             n_op = 6        # removal cases with a non-trivial subtree on both sides need 5 entries
         if tier == 'quick' and pid in ('C02', 'C11') and kind == 'key' and op in ('get_value', 'first_less', 'first_less_or_equal', 'first_less_or_equal_by'):
             n_op = 4        # the lazy-expiry queries at N=5 are part of C01 / C06, which discharge the invariant too
